@@ -22,7 +22,8 @@ theorem no_trap (cfg : Cfg) (hN : 0 < cfg.numPartitions) (h : List (Inputs × Re
     Response.trap ∉ (run cfg {} h).2 :=
   run_no_trap cfg hN {} h
 
-/-- the state after any history satisfies the invariant (valid ids, gapless sequences / versions) -/
+/-- the state after any history satisfies the invariant (valid ids, gapless sequences / versions, one
+partition key per stream of a bucket — so a stream lives in one partition) -/
 theorem history_invariant (cfg : Cfg) (hN : 0 < cfg.numPartitions) (h : List (Inputs × Request)) :
     WF cfg.numPartitions (run cfg {} h).1.abs :=
   run_wf cfg hN {} (wf_empty _) h
@@ -98,7 +99,8 @@ theorem epscan_rejects (cfg : Cfg) (st : ServerState) (sel : PSel) (lo hi : Rang
 /-- (c) ESCAN after any history with a well-formed range: the reply holds exactly the committed
 events of the stream in the partition of the given (or derived) partition key with
 `start ≤ version ≤ end`, in version order, cut to `count`; `has_more = false` only if that is the
-whole range. -/
+whole range (a stream that lives in another partition of the bucket: the first event ends the scan,
+empty reply, `has_more = false`). -/
 theorem escan_exact (cfg : Cfg) (hN : 0 < cfg.numPartitions) (h : List (Inputs × Request)) (inp : Inputs)
     (stream : List Char) (lo hi : RangeV) (pk c : Option Nat) (start : Nat) (endV : Option Nat)
     (hlo : rangeStart lo = some start) (hhi : rangeEnd hi = some endV) :
